@@ -153,9 +153,8 @@ func analyse(ev []verifsim.Event) *history {
 				if t0, ok := parkStart[e.Ref]; ok {
 					b.held += e.T - t0
 				}
-				if e.Err != "" {
-					delete(open, e.G)
-				}
+				// (a failed read normally ends the build; if the same goroutine
+				// transmits anyway the write is still attributed to it)
 			}
 		case "rtnl.addr.enter", "rtnl.route.enter":
 			if e.F != "" {
